@@ -280,11 +280,13 @@ package jsonschema
 //@   atline[C01] "// objects" cp5 uses samejv,shaped,p_items: okItems(schema, instance)
 //@   atline[C01,C07] "if len(schema.PatternProperties) > 0 {" propsok uses stacklen,propsinv: isold(schema) && isold(schema.Properties) && new(evalProps) && (forall k string {has(schema.Properties, k)} :: has(schema.Properties, k) && rvhas(instance, k) ==> vok(st, len(stk0) + 1, rvget(instance, k), schema.Properties[k]) && has(evalProps, k) && evalProps[k])
 //@   atline[C01,C07] "anns.noteProperties(evalProps)" addok uses stacklen,fal,addp: schema.AdditionalProperties != nil ==> new(evalProps) && (forall k string {rvhas(instance, k)} :: rvhas(instance, k) ==> has(evalProps, k) && evalProps[k])
+//@   atline[C01] "var min, max int" pnamesok uses stacklen,pnames: isold(schema) && (schema.PropertyNames != nil ==> (forall k string {rvhas(instance, k)} :: rvhas(instance, k) ==> vok(st, len(stk0) + 1, rvof(anyOf(k, "string")), schema.PropertyNames)))
 //@   atline[C01] "if st.rs.draft == draft7 {#3" reqok uses shaped: isold(schema) && isold(schema.Required) && okReq(schema, instance)
 //@   atline[C01] "if schema.DependentSchemas != nil {" depreqok uses stacklen,depreq: st.rs.draft == 1 ==> isold(schema) && isold(schema.DependentRequired) && (forall k string {has(schema.DependentRequired, k)} :: has(schema.DependentRequired, k) && rvhas(instance, k) ==> isold(schema.DependentRequired[k]) && (forall j int {schema.DependentRequired[k][j]} :: 0 <= j && j < len(schema.DependentRequired[k]) ==> rvhas(instance, schema.DependentRequired[k][j])))
 //@   atline[C01] "if schema.DependencySchemas != nil {" depreq7ok uses stacklen,depreq7: st.rs.draft == 0 ==> isold(schema) && isold(schema.DependencyStrings) && (forall k string {has(schema.DependencyStrings, k)} :: has(schema.DependencyStrings, k) && rvhas(instance, k) ==> isold(schema.DependencyStrings[k]) && (forall j int {schema.DependencyStrings[k][j]} :: 0 <= j && j < len(schema.DependencyStrings[k]) ==> rvhas(instance, schema.DependencyStrings[k][j])))
 //@   atline[C01] "if schema.UnevaluatedProperties != nil && !anns.allProperties {" depschok uses stacklen,depsch: st.rs.draft == 1 ==> isold(schema) && isold(schema.DependentSchemas) && (forall k string {has(schema.DependentSchemas, k)} :: has(schema.DependentSchemas, k) && rvhas(instance, k) ==> vok(st, len(stk0) + 1, instance, schema.DependentSchemas[k]))
 //@   atline[C01] "if schema.UnevaluatedProperties != nil && !anns.allProperties {" depsch7ok uses stacklen,depsch7: st.rs.draft == 0 ==> isold(schema) && isold(schema.DependencySchemas) && (forall k string {has(schema.DependencySchemas, k)} :: has(schema.DependencySchemas, k) && rvhas(instance, k) ==> vok(st, len(stk0) + 1, instance, schema.DependencySchemas[k]))
+//@   atline[C07] "anns.allProperties = true" unevpok uses stacklen,anns,unevpf,unevp: isold(schema) && new(anns) && newOrNil(anns.evaluatedProperties) && (forall k string {rvhas(instance, k)} :: rvhas(instance, k) ==> (has(anns.evaluatedProperties, k) && anns.evaluatedProperties[k]) || vok(st, len(stk0) + 1, rvget(instance, k), schema.UnevaluatedProperties))
 //@   atline[C01] "if callerAnns != nil {" cp6 uses samejv,shaped,p_props,p_req: okProps(schema, instance) && isold(schema) && isold(schema.Required) && okReq(schema, instance)
 //@   atreturn[C01,C12] accepted uses samejv: result == nil && applies ==> jv(instance) == jv(inst0) && okType(schema, instance) && okConst(schema, instance) && okNum(schema, instance) && okStr(schema, instance) && okItems(schema, instance) && okProps(schema, instance) && okReq(schema, instance)
 //@   reject[C01] "type:" (schema.Type != "" && !tmatch(schema.Type, typeName(jv(instance)))) || (schema.Type == "" && !isnil(schema.Types) && (forall i int {schema.Types[i]} :: 0 <= i && i < len(schema.Types) ==> !tmatch(schema.Types[i], typeName(jv(instance)))))
@@ -374,6 +376,15 @@ package jsonschema
 //@     invariant[C01,C07] fal: new(evalProps) && (forall k string {select(visited, k)} :: select(visited, k) ==> (has(evalProps, k) && evalProps[k]) || len(disallowed) > 0)
 //@   loop "range properties(instance)#3"
 //@     invariant[C01,C07] addp uses stacklen: new(evalProps) && isold(schema) && (forall k string {select(visited, k)} :: select(visited, k) ==> has(evalProps, k) && evalProps[k] && (pre(has(evalProps, k) && evalProps[k]) || vok(st, len(stk0) + 1, rvget(instance, k), schema.AdditionalProperties))) && (forall k string {has(evalProps, k)} :: !select(visited, k) ==> (has(evalProps, k) && evalProps[k]) == pre(has(evalProps, k) && evalProps[k]))
+//@   loop "range properties(instance)#4"
+//@     invariant[C01] pnames uses stacklen: isold(schema) && (forall k string {select(visited, k)} :: select(visited, k) ==> vok(st, len(stk0) + 1, rvof(anyOf(k, "string")), schema.PropertyNames))
+//@   loop "range properties(instance)#5"
+//@     invariant[C07] unevpf uses anns: new(anns) && newOrNil(anns.evaluatedProperties) && anns.evaluatedProperties == pre(anns.evaluatedProperties) && (forall k string {has(anns.evaluatedProperties, k)} :: (has(anns.evaluatedProperties, k) && anns.evaluatedProperties[k]) == pre((has(anns.evaluatedProperties, k) && anns.evaluatedProperties[k])))
+//@     invariant[C07] unevp uses stacklen,anns,unevpf: isold(schema) && new(anns) && newOrNil(anns.evaluatedProperties) && (forall k string {select(visited, k)} :: select(visited, k) ==> (has(anns.evaluatedProperties, k) && anns.evaluatedProperties[k]) || vok(st, len(stk0) + 1, rvget(instance, k), schema.UnevaluatedProperties))
+//@   loop "for i < instance.Len()#4"
+//@     invariant[C07] unevif uses anns: new(anns) && newOrNil(anns.evaluatedIndexes) && anns.evaluatedIndexes == pre(anns.evaluatedIndexes) && anns.endIndex == pre(anns.endIndex) && (forall j int {has(anns.evaluatedIndexes, j)} :: (has(anns.evaluatedIndexes, j) && anns.evaluatedIndexes[j]) == pre((has(anns.evaluatedIndexes, j) && anns.evaluatedIndexes[j])))
+//@     invariant[C07] unevi uses stacklen,unevif: isold(schema) && new(anns) && newOrNil(anns.evaluatedIndexes) && anns.endIndex <= i && (forall j int {rvindex(instance, j)} :: anns.endIndex <= j && j < i ==> (has(anns.evaluatedIndexes, j) && anns.evaluatedIndexes[j]) || vok(st, len(stk0) + 1, rvindex(instance, j), schema.UnevaluatedItems))
+//@     exit[C07] unevidone uses stacklen,anns,unevif,unevi: isold(schema) && new(anns) && newOrNil(anns.evaluatedIndexes) && (i >= rvlen(instance) ==> (forall j int {rvindex(instance, j)} :: anns.endIndex <= j && j < rvlen(instance) ==> (has(anns.evaluatedIndexes, j) && anns.evaluatedIndexes[j]) || vok(st, len(stk0) + 1, rvindex(instance, j), schema.UnevaluatedItems)))
 //@   loop "range schema.Properties"
 //@     invariant[C01,C07] propsinv uses stacklen: isold(schema) && isold(schema.Properties) && new(evalProps) && (forall k string {select(visited, k)} :: select(visited, k) && rvhas(instance, k) ==> vok(st, len(stk0) + 1, rvget(instance, k), schema.Properties[k]) && has(evalProps, k) && evalProps[k])
 //@   loop "range instance.Len()"
